@@ -96,13 +96,15 @@ def simulate (g : Group) (phase cause : String) (notif : List Nat) (at? : Option
   let c := g.cfg
   let m : Sim := { st := init }
   if cause == "hsfail" then m.act c .handshakeFail else
+  -- phase `late`: the connection is served under a token that was cancelled before it was accepted
+  let m := if phase == "late" then m.act c .parentCancel else m
   let m := m.act c .handshakeOk
   let (m, panicked) := runHooks g c phase cause notif at? (c.nConn + 1) 0 m
   if panicked then m else
   let m := m.act c .enterReader
   -- the echo round trip that tells the client the reader is up
   -- (in phase `connecting` the request was pipelined while the connect callbacks were running)
-  let m := m.acts c [.recvInline, .inlineReturn (some 1)]
+  let m := if phase == "late" then m else m.acts c [.recvInline, .inlineReturn (some 1)]
   let m := match phase with
     | "inline" => m.act c .recvInline
     | "parked" => m.act c (.recvOff 2)
@@ -122,6 +124,7 @@ def simulate (g : Group) (phase cause : String) (notif : List Nat) (at? : Option
     | "drop" => m.act c (.readerExit .socketError)
     | "proto" => m.act c (.readerExit .protocolViolation)
     | "protog" => m.act c (.readerExit .protocolViolation)
+    | "toobig" => m.act c (.readerExit .protocolViolation)
     | "malformed" => m.act c (.readerExit .malformedFrame)
     | "malformeds" => m.act c (.readerExit .malformedFrame)
     | "malformedl" => m.act c (.readerExit .malformedFrame)
@@ -274,10 +277,12 @@ def step (g : Group) (ws : List String) : Group × String :=
     let ids := mintIds 0 n
     let distinct := Gen.Lifecycle.peerIdFetchAdd && ids.eraseDups.length == n
     (g, s!"{idx} ids={if distinct then "distinct" else "collide"} live={ids.length}/{n} disc={ids.length}x1 after=empty")
-  | ["group", _, entry, nconn, nctx, ndisc, reg, cap, mode, _nctxRegistered, regpos] =>
+  | ["group", _, entry, nconn, nctx, ndisc, reg, cap, mode, _nctxRegistered, regpos, _harnessKnobs] =>
     ({ entry, nconn := natOf nconn, nctx := natOf nctx, ndisc := natOf ndisc, reg := natOf reg, cap := natOf cap, mode,
        regpos := natOf regpos }, "")
-  | ["scen", idx, phase, cause, notif, at_, nreq, got] =>
+  | ["scen", idx, phase, cause0, notif, at_, nreq, got] =>
+    -- the panic payload (`cpanics`/`cpanicn`/`hpanics`/`hpanicn`) is immaterial: an unwind is an unwind
+    let cause := if cause0.startsWith "cpanic" then "cpanic" else if cause0.startsWith "hpanic" then "hpanic" else cause0
     let at? := if at_ == "-" then none else some (natOf at_)
     let m := simulate g phase cause (parseNotif notif) at? (natOf nreq)
     if !m.ok then (g, idx ++ " schedule-not-enabled")
@@ -288,7 +293,7 @@ def step (g : Group) (ws : List String) : Group × String :=
       let park := if phase == "parked" || phase == "parkedfut" then (if seenByHandlers s then "1" else "0") else "-"
       -- registry while live: after all connect hooks of the trace, before the guard's events
       let liveTr := s.trace.filter (fun e => match e with | .connect _ => true | _ => false)
-      let live := if g.reg == 0 || phase == "connecting" || cause == "cpanic" then "-"
+      let live := if g.reg == 0 || phase == "connecting" || phase == "late" || cause == "cpanic" then "-"
         else if fullIn g (regAfter g liveTr) then "p" else "a"
       let after := if g.reg == 0 then "-" else if goneFrom g (regAfter g s.trace) then "a" else "p"
       -- a handler parked on `cancelled()` returns as soon as the token is cancelled: its response races with the
